@@ -37,6 +37,8 @@ claims={
         "Two-step device protocol with the caller's report data and the device-written TD report relayed through full-width copies, all result/status/OutLen gates enforced for the success return, which is exactly hdr.Data[:OutLen] of the header the device wrote; provider results returned verbatim when supported, fallback otherwise; GetQuote parses exactly the raw bytes."),
  "C19":("must-pass-through gates on main with no-return calls as terminators + exit-code table by dominance + typed-error wrap discipline + flag/field/size pairing table + non-nil population rule",
         "Exit 0 only behind verification and validation with the effective options; exit codes by error source; typed download errors producible and preserved by every wrap (%w); errors.As drives code 3; each flag overrides exactly its same-named field with the right size and only when set; parseConfig leaves no nil sub-message."),
+ "C09":("wire-layout extraction from SSA (writes of serialisers, field sources of parsers), tiling, parser/serialiser agreement, independent oracle from proto/tdx.proto, narrowing-conversion rule, term tables for the variable tail",
+        "Same field <-> same bytes in both directions without gap or overlap for the fixed parts, agreeing with a layout derived independently from the .proto; the stated slices, size/type headers, exact size equalities and concatenation order for the variable tail; pinned constants; the validity predicate closing the parser and opening the serialiser. Byte equality on concrete inputs is a consequence, not what is decided."),
 }
 na={"C11":"acceptance of every honest quote is an existential, value-dependent completeness property; no structural necessary condition of it is both statically checkable and sensitive to realistic over-strict changes (DESIGN.md section 4/C11)"}
 setup="cd /verif/checker && GOFLAGS=-mod=mod GOPROXY=off GOSUMDB=off GOTOOLCHAIN=local GOWORK=off go build -o /verif/bin/tdxlint ./cmd/tdxlint"
